@@ -194,12 +194,78 @@ def run(ctx):
                     want = [getattr(H.obj(vector, names, p_), g_) for p_ in pts]
                     if not all(abs(a_ - b_) <= 1e-12 * max(1.0, abs(b_)) for a_, b_ in zip(got, want)):
                         ctx.fail(f"numpy:{dim}D:{sysn}:{g_}", f"numpy {got.tolist()} vs object {want}", {"points": pts})
+    # the proved float64 bounds (C02_float64_error_bounds_partial) on the real code: exact rational arithmetic, both backends
+    nb, worstb = float_bounds(ctx, vector, 400 if deep else 120)
+    n += nb
     ctx.coverage["evaluations"] = n
     ctx.coverage["distinct_nontrivial"] = len(distinct)
     ctx.coverage["worst_error_over_allowed"] = worst
     ctx.coverage["samples"] = samples
-    ctx.coverage["correspondences"] = {"float64 object backend vs 60-digit definitions (40 ulp x condition)": {"ok": not any(f["site"].startswith("object") for f in ctx.failures)},
+    ctx.coverage["proved_float_bounds_worst_error_over_bound"] = worstb
+    ctx.coverage["correspondences"] = {"real float64 results within the PROVED bounds g_k / h_k (exact rational check, object + numpy)": {"ok": not any(f["site"].startswith("floatbound") for f in ctx.failures)},
+                                       "float64 object backend vs 60-digit definitions (40 ulp x condition)": {"ok": not any(f["site"].startswith("object") for f in ctx.failures)},
                                        "numpy accessors == object": {"ok": not any(f["site"].startswith("numpy") for f in ctx.failures)}}
+
+
+def float_bounds(ctx, vector, count):
+    """The model assumptions of lib/FLib.v (IEEE + - * sqrt, x**2 within one ulp, no overflow / underflow) and the bounds proved from
+    them, checked on the implementation with exact rational arithmetic: |v - e| <= g_k * sum|terms|, |v^2 - e| window for the roots."""
+    from fractions import Fraction as F
+    u = F(1, 2 ** 53)
+    g2 = u + u + u * u; g3 = g2 + u + g2 * u; g4 = g3 + u + g3 * u
+    h2 = 2 * u + u + 2 * u * u; h3 = h2 + u + h2 * u; h4 = h3 + u + h3 * u
+    rng = H.rng_for(ctx.seed, "C02", "floatbounds")
+    n = 0
+    worst = 0.0
+
+    def draw(kind):
+        if kind == "cancel":            # ill-conditioned: the products nearly cancel
+            a = rng.uniform(-1e3, 1e3); b = rng.uniform(0.5, 2.0)
+            return a, a * b * (1 + rng.uniform(-1e-9, 1e-9))
+        if kind == "wide":
+            return rng.uniform(-1, 1) * 10.0 ** rng.randint(-30, 30), rng.uniform(-1, 1) * 10.0 ** rng.randint(-30, 30)
+        return rng.uniform(-1e3, 1e3), rng.uniform(-1e3, 1e3)
+
+    def check(site, v, e, bound, inp):
+        nonlocal worst
+        err = abs(F(float(v)) - e)
+        if bound:
+            worst = max(worst, float(err / bound))
+        if err > bound:
+            ctx.fail("floatbound:" + site, f"float64 result {float(v)!r} is {float(err / bound) if bound else 'inf'} x the proved bound away from the exact value", inp)
+
+    def check_root(site, v, e2, h, inp):
+        v = F(float(v))
+        if not ((1 - h) ** 2 * e2 <= v * v <= (1 + h) ** 2 * e2 and v >= 0):
+            ctx.fail("floatbound:" + site, f"float64 result {float(v)!r}: v^2 outside [(1-h)^2, (1+h)^2] x exact {float(e2)!r}", inp)
+
+    for i in range(count):
+        kind = ("generic", "cancel", "wide")[i % 3]
+        x1, x2 = draw(kind); y1, y2 = draw(kind); z1, z2 = draw(kind); t1, t2 = draw(kind)
+        if kind == "cancel":
+            y1, y2 = -x1 * rng.uniform(0.999999, 1.000001), x2   # x1 x2 + y1 y2 ~ 0
+        X1, Y1, Z1, T1, X2, Y2, Z2, T2 = (F(q) for q in (x1, y1, z1, t1, x2, y2, z2, t2))
+        inp = {"a": [x1, y1, z1, t1], "b": [x2, y2, z2, t2], "kind": kind}
+        for backend in ("object", "numpy"):
+            if backend == "object":
+                mk = lambda **kw: vector.obj(**kw)
+                val = float
+            else:
+                mk = lambda **kw: vector.array({k: numpy.array([q]) for k, q in kw.items()})
+                val = lambda r: float(numpy.asarray(r)[0])
+            a2, b2 = mk(x=x1, y=y1), mk(x=x2, y=y2)
+            a3, b3 = mk(x=x1, y=y1, z=z1), mk(x=x2, y=y2, z=z2)
+            a4, b4 = mk(x=x1, y=y1, z=z1, t=t1), mk(x=x2, y=y2, z=z2, t=t2)
+            n += 7
+            check(f"{backend}:planar.dot", val(a2.dot(b2)), X1 * X2 + Y1 * Y2, g2 * (abs(X1 * X2) + abs(Y1 * Y2)), inp)
+            check(f"{backend}:spatial.dot", val(a3.dot(b3)), X1 * X2 + Y1 * Y2 + Z1 * Z2, g3 * (abs(X1 * X2) + abs(Y1 * Y2) + abs(Z1 * Z2)), inp)
+            check(f"{backend}:lorentz.dot", val(a4.dot(b4)), T1 * T2 - (X1 * X2 + Y1 * Y2 + Z1 * Z2),
+                  g4 * (abs(T1 * T2) + abs(X1 * X2) + abs(Y1 * Y2) + abs(Z1 * Z2)), inp)
+            check(f"{backend}:planar.rho2", val(a2.rho2), X1 * X1 + Y1 * Y1, h2 * (X1 * X1 + Y1 * Y1), inp)
+            check(f"{backend}:spatial.mag2", val(a3.mag2), X1 * X1 + Y1 * Y1 + Z1 * Z1, h3 * (X1 * X1 + Y1 * Y1 + Z1 * Z1), inp)
+            check_root(f"{backend}:planar.rho", val(a2.rho), X1 * X1 + Y1 * Y1, h3, inp)
+            check_root(f"{backend}:spatial.mag", val(a3.mag), X1 * X1 + Y1 * Y1 + Z1 * Z1, h4, inp)
+    return n, worst
 
 
 def replay(rec):
